@@ -29,6 +29,9 @@ type TypeOpts struct {
 	// SameNameInSub: a sub-package declares an enum / struct with the same local
 	// name as a root type (C10 quantifier); TypeScript cannot tell them apart
 	SameNameInSub bool
+	// IgnoreAlone: sibling fields tagged gomacro:"ignore" WITHOUT json:"-" (still serialised by
+	// encoding/json; used by C02 only, TypeScript/Dart drop such keys by design)
+	IgnoreAlone bool
 	// NoRoot: place the module outside any go/src/ directory (affects the Dart linker only)
 }
 
@@ -185,6 +188,20 @@ func (g *gen) makeSubs() {
 			{Name: "Ref", Type: Basic("int")},
 			{Name: "Kind", Type: Ref(en)},
 			{Name: "Words", Type: Slice(Basic("string"))},
+		}
+		if prev != nil && g.pr(0.6) {
+			// a typed constant of the previous package's enum declared HERE: it must not
+			// change the members of that enum (its own package declares them)
+			for _, d := range prev.Decls {
+				if d.Kind == DEnum && len(d.Blocks) > 0 && len(d.Blocks[0].Specs) > 0 {
+					cn := d.Blocks[0].Specs[0].Names[0]
+					if cn != "_" && cn[0] >= 'A' && cn[0] <= 'Z' {
+						sub.AddExtra("types.go", fmt.Sprintf("// Default%s re-exports a value of another package's enum.\nconst Default%s = %s.%s", sg.fresh(cn), cn, prev.Name, cn), prev.Path)
+						g.p.Feature("enum:typed-const-declared-in-another-package")
+					}
+					break
+				}
+			}
 		}
 		if prev != nil && g.pr(0.6) {
 			// use a type of the previous sub package
@@ -378,6 +395,13 @@ func (g *gen) makeEnums() {
 		if g.pr(0.2) {
 			d.Blocks[0].File = "other.go" // constants declared in another file of the package
 			g.p.Feature("enum:consts-in-other-file")
+		} else if g.pr(0.3) && d.Tags["plain-iota"] && len(d.Blocks[0].Specs) >= 2 {
+			// an unexported constant duplicating a value, declared in another file
+			dup := d.Blocks[0].Specs[1].Names[0]
+			d.Blocks = append(d.Blocks, &ConstBlock{File: "other.go", Specs: []*Const{{Names: []string{g.fresh("fallback" + d.Name)}, Value: dup}}})
+			delete(d.Tags, "plain-iota")
+			d.Tag("iota-with-unexported-duplicate-in-other-file")
+			g.p.Feature("enum:unexported-duplicate-in-other-file")
 		}
 		g.enums = append(g.enums, d)
 		under = d.Under.Basic
@@ -673,6 +697,30 @@ func (g *gen) makeUnions() {
 		}
 		g.unions = append(g.unions, un)
 	}
+	// a member implementing the union only through the method promoted from an embedded member
+	if g.opts.Embedded && g.pr(0.5) {
+		for _, m := range members {
+			if m.Kind != DStruct || len(m.Impls) == 0 || m.Impls[0].Ptr {
+				continue
+			}
+			d := g.add(&Decl{Name: g.fresh("Sub" + m.Name), Kind: DStruct})
+			d.Fields = []*Field{{Embedded: true, Type: Ref(m)}, {Name: "OwnField" + d.Name, Type: Basic("int")}}
+			d.Tag("promoted-member")
+			g.p.Feature("union-member:promoted-method")
+			break
+		}
+	}
+	// an alias of a union interface, used as a field type
+	if g.opts.Aliases && g.pr(0.5) {
+		un := g.unions[g.r.Intn(len(g.unions))]
+		al := g.add(&Decl{Name: g.fresh("Alias" + strings.Title(un.Name)), Kind: DAlias, Under: Ref(un)})
+		holder := g.add(&Decl{Name: g.fresh("Via" + strings.Title(un.Name)), Kind: DStruct, Fields: []*Field{{Name: "Aliased", Type: Ref(al)}, {Name: "Plain", Type: Ref(un)}}})
+		g.structs = append(g.structs, holder)
+		if g.pr(0.5) {
+			al.File = "other.go"
+		}
+		g.p.Feature("alias-of-union")
+	}
 	// enum as a union member
 	if len(g.enums) > 0 && g.pr(0.25) {
 		e := g.enums[len(g.enums)-1]
@@ -775,6 +823,13 @@ func (g *gen) makeStructs() {
 				f.Tag = `json:"-" gomacro:"ignore"`
 				f.Type = g.leafNoStruct()
 				g.p.Feature("field:gomacro-ignore")
+			case (x == 3 || x == 4) && !isUnionish && g.opts.IgnoreAlone:
+				f.Tag = `gomacro:"ignore"`
+				if x == 4 {
+					f.Tag = fmt.Sprintf(`json:"%s_kept" gomacro:"ignore"`, strings.ToLower(fname))
+				}
+				f.Type = Basic(g.pick([]string{"int", "string", "bool"}))
+				g.p.Feature("field:gomacro-ignore-alone")
 			default:
 				if !isUnionish {
 					g.tagFor(fname, f)
